@@ -25,7 +25,7 @@ func zzC01(n int, storeKind int) {
 	zzvBound("inputs", "n values (every trackable float64 of either sign, zeros, sub-minimum magnitudes, duplicates, values sharing a bin) added one at a time with unit weight; every q in [0,1] (all bit patterns); mapping = any mapping satisfying the C03 contract; store = real sparse / dense / paginated store")
 	// map iteration order is fixed here; independence from it is established for the sparse store
 	// in C04 (all orders explored there)
-	zzvMapOrderFixed(true)
+	zzvMapOrders(2)
 	zzvExactFloatsOnly()
 	zzvAssumption("sketch-level accuracy harnesses iterate Go maps in insertion order; order independence of SparseStore observers is C04's obligation")
 	m := zzContract()
